@@ -204,23 +204,37 @@ def reverseEnd (ps : List Entry) (start : Option Bytes) : Except PErr (Option By
     | [_] => .error .panic
     | _ :: (k, _) :: _ => .ok (some k)
 
-/-- `getOrderIterator` orders.go:409 -/
+/-- `getOrderIterator` orders.go:416.  Both directions start at the key of `afterOrderID + 1`, guarded
+against the uint64 overflow (for `afterOrderID = MaxUint64` the iterator starts AT key MaxUint64). -/
 def getOrderIterator (ps : List Entry) (start : Option Bytes) (reverse : Bool) (after : UInt64) :
     Except PErr (List Entry) :=
   if reverse then
     match reverseEnd ps start with
     | .error e => .error e
     | .ok stop =>
-      -- orders.go:422-425; `afterOrderID + 1` is uint64 arithmetic (wraps)
-      let orderIDKey := if after ≠ 0 then some (u64Bz (after + 1)) else none
+      -- orders.go:429-435
+      let orderIDKey :=
+        if after ≠ 0 then some (u64Bz (if after ≠ 18446744073709551615 then after + 1 else after)) else none
       .ok (revIter ps orderIDKey stop)
   else
-    -- orders.go:432-437
+    -- orders.go:442-447
     let start' :=
       if (start = none ∨ start = some []) ∧ after ≠ 0 then
         some (u64Bz (if after ≠ 18446744073709551615 then after + 1 else after))
       else start
     .ok (iter ps (match start' with | some [] => none | x => x) none)
+
+/-- HISTORICAL (before commit 9462d3706): the reverse branch computed `uint64Bz(afterOrderID + 1)`
+without the overflow guard.  Kept only for the witness `after_max_reverse_lists_all_before_fix`. -/
+def getOrderIteratorPreFix (ps : List Entry) (start : Option Bytes) (reverse : Bool) (after : UInt64) :
+    Except PErr (List Entry) :=
+  if reverse then
+    match reverseEnd ps start with
+    | .error e => .error e
+    | .ok stop =>
+      let orderIDKey := if after ≠ 0 then some (u64Bz (after + 1)) else none
+      .ok (revIter ps orderIDKey stop)
+  else getOrderIterator ps start reverse after
 
 /-- key-mode loop, orders.go:339-356: accumulate while `numHits < limit`; the NextKey is the key of
 the next HIT. -/
@@ -353,9 +367,19 @@ def deleteAndDeIndexOrder (s : Store) (o : Order) : Store :=
   | some (k, _) => s2.del k
   | none => s2
 
-/-- `iterateOrderIndex` orders.go:222 collecting every (order id, type byte) -/
-def iterateOrderIndex (s : Store) (pre : Bytes) : List (UInt64 × Nat) :=
+/-- HISTORICAL (before commit bdda88322): `iterateOrderIndex` without the 8-byte suffix test — it also
+yielded the entries of longer prefixes (asset `apples` while iterating asset `apple`).  Kept only for
+the `…_before_fix` theorems. -/
+def iterateOrderIndexPreFix (s : Store) (pre : Bytes) : List (UInt64 × Nat) :=
   (prefixStore s pre).filterMap fun e =>
+    match e.2, parseIndexKeySuffixOrderID e.1 with
+    | .tbyte b, some id => some (id, b)
+    | _, _ => none
+
+/-- `iterateOrderIndex` orders.go:222 collecting every (order id, type byte): an entry counts only if
+exactly the 8 order-id bytes follow the prefix (orders.go:226). -/
+def iterateOrderIndex (s : Store) (pre : Bytes) : List (UInt64 × Nat) :=
+  ((prefixStore s pre).filter (fun e => decide (e.1.length = 8))).filterMap fun e =>
     match e.2, parseIndexKeySuffixOrderID e.1 with
     | .tbyte b, some id => some (id, b)
     | _, _ => none
@@ -368,12 +392,17 @@ def parseOrderType (orderType : String) : Option (Option Nat) :=
     let ot := String.ofList (orderType.toLower.toList.take 3)
     if ot = "ask" then some (some 0) else if ot = "bid" then some (some 1) else none
 
-/-- the accumulator's hit decision, orders.go:261-270 -/
-def indexHit (filter : Option Nat) (e : Entry) : Bool :=
+/-- HISTORICAL (before commit bdda88322): the accumulator's hit decision without the 8-byte suffix test -/
+def indexHitPreFix (filter : Option Nat) (e : Entry) : Bool :=
   (match filter with
    | none => true
    | some b => (match e.2 with | .tbyte b' => decide (b' = b) | _ => false)) &&
   (parseIndexKeySuffixOrderID e.1).isSome
+
+/-- the accumulator's hit decision, orders.go:263-277: exactly 8 bytes after the prefix, the requested
+order type, a parsable id -/
+def indexHit (filter : Option Nat) (e : Entry) : Bool :=
+  decide (e.1.length = 8) && indexHitPreFix filter e
 
 /-- `getPageOfOrdersFromIndex` orders.go:233 -/
 def getPageOfOrdersFromIndex (s : Store) (pre : Bytes) (req : PageReq) (orderType : String)
